@@ -159,7 +159,13 @@ func (pool *TxPool) delTx(tx *types.Transaction) {
 	// delete indexes of sub transactions in box transaction
 	if tx.Type() == params.BoxTx {
 		for _, subTx := range getSubTxs(tx) {
-			delete(pool.hashIndexMap, subTx.Hash())
+			subHash := subTx.Hash()
+			// The sub tx may be pending on its own (or in another box) while this box is not from the pool. It must leave the pool with its index, or it would be packaged again
+			if index, ok := pool.hashIndexMap[subHash]; ok && pool.txs[index] != nil {
+				pool.txs[index] = nil
+				txPoolTotalNumberCounter.Dec(1)
+			}
+			delete(pool.hashIndexMap, subHash)
 		}
 	}
 }
